@@ -38,6 +38,28 @@ Definition near_agree (mag : Q) (m : nearest_out Q) (o : onear) : bool :=
       all2 (col_agree mag) (MV p :: opt_col MI i ++ opt_col MF d ++ opt_col MT t) cols
   | _, _ => false
   end.
+(* row-wise comparison that skips the rows (queries) whose winning segment rounding could change *)
+Fixpoint masked2 {A B} (f : A -> B -> bool) (mask : list bool) (l : list A) (l' : list B) : bool :=
+  match mask, l, l' with
+  | [], [], [] => true
+  | d :: mask', x :: r, y :: r' => (negb d || f x y) && masked2 f mask' r r'
+  | _, _, _ => false
+  end.
+Definition col_agree_m (mag : Q) (mask : list bool) (m : mcol) (o : ocol) : bool :=
+  match m, o with
+  | MV a, OV b => masked2 (vec_close_rel mag) mask a b
+  | MI a, OI b => masked2 Nat.eqb mask a b
+  | MF a, OF b => masked2 (fl_close_rel mag) mask a b
+  | MT a, OF b => masked2 fl_close mask a b
+  | _, _ => false
+  end.
+Definition near_agree_m (mag : Q) (mask : list bool) (m : nearest_out Q) (o : onear) : bool :=
+  match m, o with
+  | NBare p, OBare q => masked2 (vec_close_rel mag) mask p q
+  | NTuple p i d t, OTuple cols =>
+      all2 (col_agree_m mag mask) (MV p :: opt_col MI i ++ opt_col MF d ++ opt_col MT t) cols
+  | _, _ => false
+  end.
 (* same shape (bare / tuple, number and kinds of columns, row counts), values ignored *)
 Definition col_shape (m : mcol) (o : ocol) : bool :=
   match m, o with
@@ -99,11 +121,11 @@ Definition check_case (c : case) : bool :=
   match c with
   | CNearest pl ps ri rd rt obs full =>
       let mag := mag_of (pv pl ++ ps) in
-      let dec := forallb (decided_query mag pl) ps in
+      let decs := map (decided_query mag pl) ps in      (* per query: undecided rows are skipped, the others compared *)
       let m := nearest QOps pl ps ri rd rt in
       let mf := nearest QOps pl ps true true true in
       res_agree near_shape m obs && res_agree near_shape mf full &&
-      (negb dec || (res_agree (near_agree mag) m obs && res_agree (near_agree mag) mf full))
+      res_agree (near_agree_m mag decs) m obs && res_agree (near_agree_m mag decs) mf full
   | CClosest exact ps sa sv eps pts ts on =>
       vecs_close_rel (mag_of (ps ++ sa ++ sv)) (closest_points_pairs QOps ps sa sv) pts &&
       list_close (closest_ts_pairs QOps ps sa sv) ts &&
